@@ -43,6 +43,9 @@ pub enum CorruptOp {
 pub struct C05Case {
     pub two_targets: bool,
     pub fault: Fault,
+    /// After the faulty invocation the input is put back to what the old record describes.
+    #[serde(default)]
+    pub revert: bool,
 }
 
 pub fn fault_strategy() -> impl Strategy<Value = Fault> {
@@ -66,7 +69,11 @@ pub fn fault_strategy() -> impl Strategy<Value = Fault> {
 }
 
 pub fn c05_case() -> impl Strategy<Value = C05Case> {
-    (any::<bool>(), fault_strategy()).prop_map(|(two_targets, fault)| C05Case { two_targets, fault })
+    (any::<bool>(), fault_strategy(), any::<bool>()).prop_map(|(two_targets, fault, revert)| C05Case {
+        two_targets,
+        fault,
+        revert,
+    })
 }
 
 fn script(id: &str, copy: &str) -> String {
@@ -253,7 +260,7 @@ fn as_limit_env() -> Vec<(String, String)> {
 
 fn run_plain(sb: &Sandbox, dir: &Path, targets: &[String], env: &[(String, String)]) -> ZOutcome {
     sb.clear_trace();
-    run_zinoma(sb, dir, targets, env, Duration::from_secs(40), false)
+    run_zinoma(sb, dir, targets, env, Duration::from_secs(20), false)
 }
 
 pub fn eval_c05(case: &C05Case) -> CaseResult {
@@ -282,12 +289,10 @@ pub fn eval_c05(case: &C05Case) -> CaseResult {
     let other_state = std::fs::read(state_path("t")).unwrap_or_default();
     let decoder_calibrated = independent_decode(&orig).is_ok();
     let len = orig.len();
+    let input_rel = if case.two_targets { "proj/usrc/u.txt" } else { "proj/src/a.txt" };
+    let input_orig = std::fs::read(sb.path(input_rel)).unwrap_or_default();
     let change_input = |sb: &Sandbox| {
-        if case.two_targets {
-            sb.write("proj/usrc/u.txt", b"u input version 2 (changed)\n");
-        } else {
-            sb.write("proj/src/a.txt", b"input version 2 (changed)\n");
-        }
+        sb.write(input_rel, b"input version 2 (changed)\n");
     };
 
     let mut must_run = true;
@@ -429,6 +434,19 @@ pub fn eval_c05(case: &C05Case) -> CaseResult {
             sb.kill_marked();
             let _ = std::fs::remove_file(sb.path(&mode_file));
             let _ = std::fs::remove_file(sb.path("started"));
+            if case.revert {
+                // the input goes back to what the *old* record describes: the interrupted build
+                // must still not count as done. If the script never started and the old record
+                // was legitimately still there (death before it was discarded), a skip is fine.
+                sb.write(input_rel, &input_orig);
+                label.push_str("+reverted");
+                let script_started = started(&tr2, observed) > 0;
+                let after_discard = matches!(fault, Fault::Crash(p) if p != "decided")
+                    || matches!(fault, Fault::PartialWrite(_) | Fault::KillParent);
+                if !(script_started || after_discard) {
+                    must_run = false;
+                }
+            }
         }
     }
 
@@ -451,7 +469,7 @@ pub fn eval_c05(case: &C05Case) -> CaseResult {
         res.violation = Some(msg);
         res
     };
-    if o3.timed_out {
+    if o3.timed_out && !o3.stderr.contains("panicked at") {
         res.inconclusive = Some("next invocation still busy at budget".into());
         return res;
     }
@@ -499,16 +517,16 @@ pub fn exhaustive_cases(two_targets: bool, len_hint: usize) -> Vec<C05Case> {
         // x such that (x * (len+1)) >> 16 == k  (smallest such x)
         let x = ((k << 16) + n - 1) / n.max(1);
         if x <= u16::MAX as usize {
-            v.push(C05Case { two_targets, fault: Fault::PartialWrite(x as u16) });
+            v.push(C05Case { two_targets, fault: Fault::PartialWrite(x as u16), revert: k % 2 == 1 });
         }
     }
     for k in 0..len_hint {
         let x = ((k << 16) + len_hint - 1) / len_hint.max(1);
         if x <= u16::MAX as usize {
             for input_changed in [true, false] {
-                v.push(C05Case { two_targets, fault: Fault::Corrupt { op: CorruptOp::Truncate(x as u16), input_changed } });
+                v.push(C05Case { two_targets, fault: Fault::Corrupt { op: CorruptOp::Truncate(x as u16), input_changed }, revert: false });
             }
-            v.push(C05Case { two_targets, fault: Fault::Corrupt { op: CorruptOp::BitFlip(x as u16, (k % 8) as u8), input_changed: k % 2 == 0 } });
+            v.push(C05Case { two_targets, fault: Fault::Corrupt { op: CorruptOp::BitFlip(x as u16, (k % 8) as u8), input_changed: k % 2 == 0 }, revert: false });
         }
     }
     v
